@@ -312,6 +312,7 @@ def parse_single_name_into_parts(name, strict=True):
             # If we're at the end of the string, then the \ is just a \.
             except StopIteration:
                 word.append(char)
+                continue
 
         # Start of a braced expression.
         if char == "{":
